@@ -13,6 +13,9 @@
 use crate::util::*;
 use linfa::prelude::*;
 use ndarray::{Array1, Array2};
+#[path = "c05_forms.rs"]
+mod forms;
+use forms::CmLabel;
 use std::collections::BTreeSet;
 use std::fmt::Display;
 use std::panic::{catch_unwind, AssertUnwindSafe};
@@ -46,7 +49,7 @@ fn parse_cm<A: Display>(cm: &ConfusionMatrix<A>) -> (Vec<String>, Vec<Vec<u64>>)
 struct CmObs {
     members: Vec<String>,
     cells: Vec<Vec<u64>>,
-    scores: [f32; 6], // acc prec rec f1 fh mcc
+    scores: [f32; 7], // acc prec rec f1 fh mcc f2
     ova: Vec<Vec<Vec<u64>>>,
     ovo: Vec<Vec<Vec<u64>>>,
     ovap: Vec<f32>,
@@ -56,7 +59,7 @@ struct CmObs {
 impl CmObs {
     fn line(&self) -> String {
         format!(
-            "ok members={} cells={} acc={} prec={} rec={} f1={} fh={} mcc={} ova={} ovo={} ovap={} ovar={} ovaf={}",
+            "ok members={} cells={} acc={} prec={} rec={} f1={} fh={} f2={} mcc={} ova={} ovo={} ovap={} ovar={} ovaf={}",
             self.members.join(","),
             list2(self.cells.iter().map(|r| r.iter()), |x| x.to_string()),
             h32c(self.scores[0]),
@@ -64,6 +67,7 @@ impl CmObs {
             h32c(self.scores[2]),
             h32c(self.scores[3]),
             h32c(self.scores[4]),
+            h32c(self.scores[6]),
             h32c(self.scores[5]),
             list3(self.ova.iter().map(|m| m.iter().map(|r| r.iter())), |x| x.to_string()),
             list3(self.ovo.iter().map(|m| m.iter().map(|r| r.iter())), |x| x.to_string()),
@@ -74,10 +78,8 @@ impl CmObs {
     }
 }
 
-fn observe_cm<L: linfa::dataset::Label + Display>(pred: &[L], truth: &[L], tok: &dyn Fn(&L) -> String) -> Result<CmObs, String> {
-    let p = Array1::from(pred.to_vec());
-    let t = Array1::from(truth.to_vec());
-    let cm = match p.confusion_matrix(&t) {
+fn observe_cm<L: CmLabel>(form: usize, pred: &[L], truth: &[L], tok: &dyn Fn(&L) -> String) -> Result<CmObs, String> {
+    let cm = match forms::call_cm(form, pred, truth) {
         Ok(cm) => cm,
         Err(linfa::Error::MismatchedShapes(_, _)) => return Err("err MismatchedShapes".into()),
         Err(e) => return Err(format!("err {:?}", e)),
@@ -93,7 +95,7 @@ fn observe_cm<L: linfa::dataset::Label + Display>(pred: &[L], truth: &[L], tok: 
     Ok(CmObs {
         members,
         cells,
-        scores: [cm.accuracy(), cm.precision(), cm.recall(), cm.f1_score(), cm.f_score(0.5), cm.mcc()],
+        scores: [cm.accuracy(), cm.precision(), cm.recall(), cm.f1_score(), cm.f_score(0.5), cm.mcc(), cm.f_score(2.0)],
         ova: ova_cms.iter().map(|c| parse_cm(c).1).collect(),
         ovo: ovo_cms.iter().map(|c| parse_cm(c).1).collect(),
         ovap: ova_cms.iter().map(|c| c.precision()).collect(),
@@ -118,7 +120,7 @@ fn fbeta(beta: f64, p: f64, r: f64) -> f64 {
 }
 
 /// first-principles oracle for the confusion matrix and everything derived from it
-fn oracle_cm<L: Ord + Clone + Eq>(ctx: &mut Ctx, pred: &[L], truth: &[L], tok: &dyn Fn(&L) -> String, o: &CmObs) {
+fn oracle_cm<L: Ord + Clone + Eq>(ctx: &mut Ctx, prefix: &str, pred: &[L], truth: &[L], tok: &dyn Fn(&L) -> String, o: &CmObs) {
     let n = pred.len();
     let set: BTreeSet<&L> = pred.iter().chain(truth.iter()).collect();
     let mut cs: Vec<&L> = set.into_iter().collect();
@@ -127,7 +129,7 @@ fn oracle_cm<L: Ord + Clone + Eq>(ctx: &mut Ctx, pred: &[L], truth: &[L], tok: &
     }
     let k = cs.len();
     let kc = if k == 2 { "binary" } else if k < 2 { "single" } else { "multi" };
-    let class = format!("cm:classes={}", kc);
+    let class = format!("{}:classes={}", prefix, kc);
     let want_members: Vec<String> = cs.iter().map(|l| tok(l)).collect();
     ctx.require(o.members == want_members, "members_sorted_union", &class, || format!("members {:?}, want {:?}", o.members, want_members));
     if o.members != want_members {
@@ -176,6 +178,7 @@ fn oracle_cm<L: Ord + Clone + Eq>(ctx: &mut Ctx, pred: &[L], truth: &[L], tok: &
     ctx.require(close(o.scores[2] as f64, r, 1e-5), "recall_documented", &class, || format!("recall {} want {}", o.scores[2], r));
     ctx.require(close(o.scores[3] as f64, fbeta(1.0, p, r), 1e-5), "f_beta", &class, || format!("f1 {} want {}", o.scores[3], fbeta(1.0, p, r)));
     ctx.require(close(o.scores[4] as f64, fbeta(0.5, p, r), 1e-5), "f_beta", &class, || format!("f0.5 {} want {}", o.scores[4], fbeta(0.5, p, r)));
+    ctx.require(close(o.scores[6] as f64, fbeta(2.0, p, r), 1e-5), "f_beta", &class, || format!("f2 {} want {}", o.scores[6], fbeta(2.0, p, r)));
     for c in 0..k {
         let (pc, rc) = (pb(&ova_want[c]), rb(&ova_want[c]));
         ctx.require(close(o.ovap[c] as f64, pc, 1e-5) && close(o.ovar[c] as f64, rc, 1e-5) && close(o.ovaf[c] as f64, fbeta(1.0, pc, rc), 1e-5), "one_vs_all_scores", &class, || {
@@ -202,25 +205,36 @@ fn same_obs(a: &CmObs, b: &CmObs) -> bool {
     a.line() == b.line()
 }
 
-fn op_cm<L: linfa::dataset::Label + Display>(em: &mut Em, ty: &str, kind: &str, pred: Vec<L>, truth: Vec<L>, perm: Vec<usize>, tok: &dyn Fn(&L) -> String) {
-    let op = format!("cm ty={} p={} t={}", ty, list(pred.iter(), |x| tok(x)), list(truth.iter(), |x| tok(x)));
-    em.count(&format!("cm:{}", kind));
+/// `form` 0 is the plain `Array1.confusion_matrix(&Array1)` call (op `cm`); every other calling form
+/// (op `cmf form=k`) has the same model and the same oracle: the matrix is a function of the
+/// (prediction, truth) label vectors only, whatever container carries them
+fn op_cm<L: CmLabel>(em: &mut Em, form: usize, ty: &str, kind: &str, pred: Vec<L>, truth: Vec<L>, perm: Vec<usize>, tok: &dyn Fn(&L) -> String) {
+    let args = format!("ty={} p={} t={}", ty, list(pred.iter(), |x| tok(x)), list(truth.iter(), |x| tok(x)));
+    let op = if form == 0 { format!("cm {}", args) } else { format!("cmf form={} {}", form, args) };
+    let prefix = if form == 0 { "cm".to_string() } else { format!("cmf:{}", forms::CM_FORM_NAMES[form]) };
+    em.count(&format!("{}:{}", if form == 0 { "cm" } else { "cmf" }, kind));
+    if form != 0 {
+        em.count(&format!("cmf:form={}", forms::CM_FORM_NAMES[form]));
+    }
     let valid = pred.len() == truth.len() && !pred.is_empty();
-    let class = format!("cm:{}", kind);
+    let class = format!("{}:{}", prefix, kind);
     let body = |ctx: &mut Ctx| {
-        let o = match observe_cm(&pred, &truth, tok) {
+        let o = match observe_cm(form, &pred, &truth, tok) {
             Ok(o) => o,
             Err(e) => return e,
         };
         if valid {
-            oracle_cm(ctx, &pred, &truth, tok, &o);
+            oracle_cm(ctx, &prefix, &pred, &truth, tok, &o);
             // one permutation applied to predictions and truths together
             let pp: Vec<L> = perm.iter().map(|i| pred[*i].clone()).collect();
             let tt: Vec<L> = perm.iter().map(|i| truth[*i].clone()).collect();
-            match observe_cm(&pp, &tt, tok) {
-                Ok(o2) => ctx.require(same_obs(&o, &o2), "perm_invariant", "cm", || format!("permuted input {:?} gives {} instead of {}", perm, o2.line(), o.line())),
-                Err(e) => ctx.fail("perm_invariant", "cm", format!("permuted input fails: {}", e)),
+            match observe_cm(form, &pp, &tt, tok) {
+                Ok(o2) => ctx.require(same_obs(&o, &o2), "perm_invariant", &prefix, || format!("permuted input {:?} gives {} instead of {}", perm, o2.line(), o.line())),
+                Err(e) => ctx.fail("perm_invariant", &prefix, format!("permuted input fails: {}", e)),
             }
+        } else if pred.len() == truth.len() {
+            // n = 0: an empty matrix; cells (none) sum to 0 = n
+            ctx.require(o.members.is_empty() && o.cells.is_empty() && o.ova.is_empty() && o.ovo.is_empty(), "cells_sum_n", &format!("{}:classes=none", prefix), || format!("no samples but {}", o.line()));
         }
         o.line()
     };
@@ -233,7 +247,8 @@ fn op_cm<L: linfa::dataset::Label + Display>(em: &mut Em, ty: &str, kind: &str, 
 
 const STR_LABELS: [&str; 8] = ["a", "b", "B", "ab", "10", "9", "Zz", "\u{e9}"];
 
-fn cm_dispatch(em: &mut Em, rng: &mut Rng, kind: &str, pred: Vec<usize>, truth: Vec<usize>, variant: usize) {
+/// `variant`: 0 usize, 1 bool (alphabet <= 2, else usize), 2 String, 3 &'static str
+fn cm_dispatch(em: &mut Em, rng: &mut Rng, form: usize, kind: &str, pred: Vec<usize>, truth: Vec<usize>, variant: usize) {
     let n = pred.len().min(truth.len());
     let mut perm: Vec<usize> = (0..n).collect();
     rng.shuffle(&mut perm);
@@ -241,16 +256,33 @@ fn cm_dispatch(em: &mut Em, rng: &mut Rng, kind: &str, pred: Vec<usize>, truth: 
     match variant {
         1 if alphabet <= 2 => {
             let f = |v: &Vec<usize>| v.iter().map(|x| *x == 1).collect::<Vec<bool>>();
-            op_cm(em, "n", &format!("{}:bool", kind), f(&pred), f(&truth), perm, &|b: &bool| (*b as u8).to_string());
+            op_cm(em, form, "n", &format!("{}:bool", kind), f(&pred), f(&truth), perm, &|b: &bool| (*b as u8).to_string());
         }
         2 => {
             // a fixed injection of the small alphabet into strings whose byte order differs from the index order
             let off = rng.below(STR_LABELS.len());
             let f = |v: &Vec<usize>| v.iter().map(|x| STR_LABELS[(*x + off) % STR_LABELS.len()].to_string()).collect::<Vec<String>>();
-            op_cm(em, "s", &format!("{}:string", kind), f(&pred), f(&truth), perm, &|s: &String| hexstr(s));
+            op_cm(em, form, "s", &format!("{}:string", kind), f(&pred), f(&truth), perm, &|s: &String| hexstr(s));
         }
-        _ => op_cm(em, "n", &format!("{}:usize", kind), pred, truth, perm, &|x: &usize| x.to_string()),
+        3 => {
+            let off = rng.below(STR_LABELS.len());
+            let f = |v: &Vec<usize>| v.iter().map(|x| STR_LABELS[(*x + off) % STR_LABELS.len()]).collect::<Vec<&'static str>>();
+            op_cm(em, form, "s", &format!("{}:str", kind), f(&pred), f(&truth), perm, &|s: &&'static str| hexstr(s));
+        }
+        _ => op_cm(em, form, "n", &format!("{}:usize", kind), pred, truth, perm, &|x: &usize| x.to_string()),
     }
+}
+
+fn random_cm_pair(rng: &mut Rng) -> (Vec<usize>, Vec<usize>) {
+    let a = 1 + rng.below(6);
+    let big = rng.chance(1, 8);
+    let n = 1 + rng.below(if big { 200 } else { 30 });
+    let shift = if rng.chance(1, 3) { rng.below(3) } else { 0 };
+    let skew = rng.coin();
+    let mut draw = |rng: &mut Rng, s: usize| -> Vec<usize> { (0..n).map(|_| if skew && rng.chance(2, 3) { s } else { s + rng.below(a) }).collect() };
+    let pred = draw(rng, 0);
+    let truth = draw(rng, shift);
+    (pred, truth)
 }
 
 fn gen_cm(em: &mut Em, rng: &mut Rng) {
@@ -270,25 +302,16 @@ fn gen_cm(em: &mut Em, rng: &mut Rng) {
                     c /= a as u64;
                 }
                 let variant = (code % 3) as usize;
-                cm_dispatch(em, rng, &format!("exhaustive:a={}", a), pred, truth, variant);
+                cm_dispatch(em, rng, 0, &format!("exhaustive:a={}", a), pred, truth, variant);
             }
         }
     }
     // random longer vectors, label sets that differ between the two sides, skewed classes
     let reps = if em.thorough() { 12000 } else { 700 };
     for _ in 0..reps {
-        let a = 1 + rng.below(6);
-        let big = rng.chance(1, 8);
-        let n = 1 + rng.below(if big { 200 } else { 30 });
-        let shift = if rng.chance(1, 3) { rng.below(3) } else { 0 };
-        let skew = rng.coin();
-        let mut draw = |rng: &mut Rng, s: usize| -> Vec<usize> {
-            (0..n).map(|_| if skew && rng.chance(2, 3) { s } else { s + rng.below(a) }).collect()
-        };
-        let pred = draw(rng, 0);
-        let truth = draw(rng, shift);
-        let variant = rng.below(3);
-        cm_dispatch(em, rng, "random", pred, truth, variant);
+        let (pred, truth) = random_cm_pair(rng);
+        let variant = rng.below(4);
+        cm_dispatch(em, rng, 0, "random", pred, truth, variant);
     }
     // malformed: lengths differ (MismatchedShapes)
     for _ in 0..20 {
@@ -297,7 +320,53 @@ fn gen_cm(em: &mut Em, rng: &mut Rng) {
         let pred: Vec<usize> = (0..n).map(|_| rng.below(3)).collect();
         let truth: Vec<usize> = (0..m).map(|_| rng.below(3)).collect();
         let (p, t) = if rng.coin() { (pred, truth) } else { (truth, pred) };
-        op_cm(em, "n", "mismatched", p, t, vec![], &|x: &usize| x.to_string());
+        op_cm(em, 0, "n", "mismatched", p, t, vec![], &|x: &usize| x.to_string());
+    }
+    // no samples at all
+    op_cm(em, 0, "n", "empty", Vec::<usize>::new(), vec![], vec![], &|x: &usize| x.to_string());
+    op_cm(em, 0, "s", "empty", Vec::<String>::new(), vec![], vec![], &|s: &String| hexstr(s));
+}
+
+/// every calling form of `confusion_matrix` (arrays by value / reference / view, datasets,
+/// `CountedTargets`, `with_labels` datasets) on asymmetric inputs
+fn gen_cm_forms(em: &mut Em, rng: &mut Rng) {
+    for form in 1..forms::CM_FORMS {
+        // every (prediction, truth) pair over 2 labels up to length 3 and over 3 labels of length 2, 3:
+        // contains every asymmetric 2x2 and 3x3 pattern (e.g. pred=[0,1,1], truth=[0,0,1])
+        for &(a, lo, hi) in &[(2usize, 1usize, 3usize), (3, 2, if em.thorough() { 3 } else { 2 })] {
+            for n in lo..=hi {
+                let total = (a as u64).pow(2 * n as u32);
+                for code in 0..total {
+                    let mut c = code;
+                    let mut pred = vec![];
+                    let mut truth = vec![];
+                    for _ in 0..n {
+                        pred.push((c % a as u64) as usize);
+                        c /= a as u64;
+                        truth.push((c % a as u64) as usize);
+                        c /= a as u64;
+                    }
+                    let variant = ((code + form as u64) % 4) as usize;
+                    cm_dispatch(em, rng, form, &format!("exhaustive:a={}", a), pred, truth, variant);
+                }
+            }
+        }
+        let reps = if em.thorough() { 600 } else { 60 };
+        for _ in 0..reps {
+            let (pred, truth) = random_cm_pair(rng);
+            let variant = rng.below(4);
+            cm_dispatch(em, rng, form, "random", pred, truth, variant);
+        }
+        // lengths differ / no samples
+        for _ in 0..3 {
+            let n = 1 + rng.below(4);
+            let m = n + 1 + rng.below(2);
+            let pred: Vec<usize> = (0..n).map(|_| rng.below(3)).collect();
+            let truth: Vec<usize> = (0..m).map(|_| rng.below(3)).collect();
+            let (p, t) = if rng.coin() { (pred, truth) } else { (truth, pred) };
+            op_cm(em, form, "n", "mismatched", p, t, vec![], &|x: &usize| x.to_string());
+        }
+        op_cm(em, form, "n", "empty", Vec::<usize>::new(), vec![], vec![], &|x: &usize| x.to_string());
     }
 }
 
@@ -313,15 +382,19 @@ impl RocObs {
         format!("ok curve={} thr={} auc={}", list2(self.curve.iter().map(|p| [p.0, p.1]), |x| h32c(x)), list(self.thr.iter(), |x| h32c(*x)), h32c(self.auc))
     }
 }
-fn observe_roc(s: &[f32], y: &[bool]) -> RocObs {
-    let pr: Vec<Pr> = s.iter().map(|x| Pr::new_unchecked(*x)).collect();
-    let sl: &[Pr] = &pr;
-    let roc = sl.roc(y).expect("roc");
+fn observe_roc(form: usize, s: &[f32], y: &[bool]) -> RocObs {
+    let roc = forms::call_roc(form, s, y).expect("roc");
     RocObs { curve: roc.get_curve(), thr: roc.get_thresholds(), auc: roc.area_under_curve() }
 }
 
-fn op_roc(em: &mut Em, kind: &str, s: Vec<f32>, y: Vec<bool>, perm: Vec<usize>) {
-    let op = format!("roc s={} y={}", list(s.iter(), |x| hex32(*x)), list(y.iter(), |b| (*b as u8).to_string()));
+/// `form` 0: `(&[Pr]).roc(&[bool])` (op `roc`); other forms (op `rocf`): `Array1<Pr>`, views, datasets
+fn op_roc(em: &mut Em, form: usize, kind: &str, s: Vec<f32>, y: Vec<bool>, perm: Vec<usize>) {
+    let args = format!("s={} y={}", list(s.iter(), |x| hex32(*x)), list(y.iter(), |b| (*b as u8).to_string()));
+    let op = if form == 0 { format!("roc {}", args) } else { format!("rocf form={} {}", form, args) };
+    if form != 0 {
+        em.count(&format!("rocf:form={}", forms::BIN_FORM_NAMES[form]));
+    }
+    let equal_len = s.len() == y.len();
     let npos = y.iter().filter(|b| **b).count();
     let nneg = y.len() - npos;
     let in_range = s.iter().all(|x| *x >= 0.0 && *x <= 1.0);
@@ -330,19 +403,19 @@ fn op_roc(em: &mut Em, kind: &str, s: Vec<f32>, y: Vec<bool>, perm: Vec<usize>) 
     let mut sorted = s.clone();
     sorted.sort_by(|a, b| a.partial_cmp(b).unwrap());
     let separated = sorted.windows(2).all(|w| w[0] == w[1] || (w[1] - w[0]) > 2e-10);
-    let covered = npos > 0 && nneg > 0 && in_range && separated;
+    let covered = equal_len && npos > 0 && nneg > 0 && in_range && separated;
     let has_zero = s.iter().any(|x| *x == 0.0);
     let has_tie = sorted.windows(2).any(|w| w[0] == w[1]);
-    em.count(&format!("roc:{}", kind));
+    em.count(&format!("{}:{}", if form == 0 { "roc" } else { "rocf" }, kind));
     if covered {
         em.count(if has_zero { "roc:lowest_score_zero" } else { "roc:lowest_score_positive" });
         if has_tie {
             em.count("roc:tied_scores");
         }
     }
-    let class = format!("roc:min_score={}", if has_zero { "zero" } else { "positive" });
+    let class = if form == 0 { format!("roc:min_score={}", if has_zero { "zero" } else { "positive" }) } else { format!("rocf:{}:min_score={}", forms::BIN_FORM_NAMES[form], if has_zero { "zero" } else { "positive" }) };
     let body = |ctx: &mut Ctx| {
-        let o = observe_roc(&s, &y);
+        let o = observe_roc(form, &s, &y);
         if covered {
             let first = o.curve.first().copied();
             let last = o.curve.last().copied();
@@ -373,7 +446,7 @@ fn op_roc(em: &mut Em, kind: &str, s: Vec<f32>, y: Vec<bool>, perm: Vec<usize>) 
             ctx.require(close(o.auc as f64, mw, 2e-6), "auc_eq_mann_whitney", &class, || format!("AUC {} but Mann-Whitney statistic {} (scores {:?} labels {:?})", o.auc, mw, s, y));
             let sp: Vec<f32> = perm.iter().map(|i| s[*i]).collect();
             let yp: Vec<bool> = perm.iter().map(|i| y[*i]).collect();
-            let o2 = observe_roc(&sp, &yp);
+            let o2 = observe_roc(form, &sp, &yp);
             ctx.require(o2.line() == o.line(), "perm_invariant", "roc", || format!("permuted input {:?} gives {} instead of {}", perm, o2.line(), o.line()));
         } else {
             ctx.mark_trivial();
@@ -418,7 +491,7 @@ fn gen_roc(em: &mut Em, rng: &mut Rng) {
             }
             let mut perm: Vec<usize> = (0..n).collect();
             rng.shuffle(&mut perm);
-            op_roc(em, "exhaustive_ordered", s, y, perm);
+            op_roc(em, 0, "exhaustive_ordered", s, y, perm);
         }
     }
     // every multiset of (score, label) items of the next sizes, in a random order
@@ -433,7 +506,7 @@ fn gen_roc(em: &mut Em, rng: &mut Rng) {
             let y: Vec<bool> = items.iter().map(|d| d % 2 == 1).collect();
             let mut perm: Vec<usize> = (0..n).collect();
             rng.shuffle(&mut perm);
-            op_roc(em, "exhaustive_multiset", s, y, perm);
+            op_roc(em, 0, "exhaustive_multiset", s, y, perm);
         }
     }
     // random: finer lattice, generic f32 scores, heavy ties
@@ -452,7 +525,7 @@ fn gen_roc(em: &mut Em, rng: &mut Rng) {
         let y: Vec<bool> = (0..n).map(|_| rng.coin()).collect();
         let mut perm: Vec<usize> = (0..n).collect();
         rng.shuffle(&mut perm);
-        op_roc(em, "random", s, y, perm);
+        op_roc(em, 0, "random", s, y, perm);
     }
     // outside the Mann-Whitney claim (model vs code only): scores chained within 1e-10, negative
     // scores (filtered out by the code), a single class
@@ -471,16 +544,26 @@ fn gen_roc(em: &mut Em, rng: &mut Rng) {
         let y: Vec<bool> = (0..n).map(|_| rng.chance(3, 4)).collect();
         let mut perm: Vec<usize> = (0..n).collect();
         rng.shuffle(&mut perm);
-        op_roc(em, "uncovered", s, y, perm);
+        op_roc(em, 0, "uncovered", s, y, perm);
     }
 }
 
-fn op_logloss(em: &mut Em, kind: &str, s: Vec<f32>, y: Vec<bool>) {
-    let op = format!("logloss s={} y={}", list(s.iter(), |x| hex32(*x)), list(y.iter(), |b| (*b as u8).to_string()));
-    em.count(&format!("logloss:{}", kind));
+/// `form` 0: `Array1<Pr>.log_loss(&[bool])` (op `logloss`); other forms (op `loglossf`): slice, view,
+/// datasets.  Unequal lengths are documented to panic (`assert_eq!`), which the model answers too.
+fn op_logloss(em: &mut Em, form: usize, kind: &str, s: Vec<f32>, y: Vec<bool>, perm: Vec<usize>) {
+    let args = format!("s={} y={}", list(s.iter(), |x| hex32(*x)), list(y.iter(), |b| (*b as u8).to_string()));
+    // harness form numbering: 0 = Array1 (the original op), k>0 = forms::call_log_loss(k') with 0 <-> 1 swapped
+    let cform = match form { 0 => 1, 1 => 0, k => k };
+    let op = if form == 0 { format!("logloss {}", args) } else { format!("loglossf form={} {}", form, args) };
+    em.count(&format!("{}:{}", if form == 0 { "logloss" } else { "loglossf" }, kind));
+    if form != 0 {
+        em.count(&format!("loglossf:form={}", forms::BIN_FORM_NAMES[cform]));
+    }
+    let class = if form == 0 { "logloss".to_string() } else { format!("loglossf:{}", forms::BIN_FORM_NAMES[cform]) };
+    let n = s.len();
+    let valid = n > 0 && n == y.len();
     let body = |ctx: &mut Ctx| {
-        let pr: Array1<Pr> = s.iter().map(|x| Pr::new_unchecked(*x)).collect();
-        match pr.log_loss(y.as_slice()) {
+        match forms::call_log_loss(cform, &s, &y) {
             Ok(v) => {
                 // mean clipped negative log-likelihood, in f64
                 let eps = f32::EPSILON as f64;
@@ -489,36 +572,133 @@ fn op_logloss(em: &mut Em, kind: &str, s: Vec<f32>, y: Vec<bool>) {
                     let a = (*p as f64).max(eps).min((1.0f32 - f32::EPSILON) as f64);
                     sum += if *b { -a.ln() } else { -(1.0 - a).ln() };
                 }
-                let want = sum / s.len() as f64;
-                ctx.require(close(v as f64, want, 1e-5), "log_loss_def", "logloss", || format!("log-loss {} want {}", v, want));
+                let want = sum / n as f64;
+                // error bound of the f32 evaluation: every term carries the relative error of `1 - a`, of
+                // libm's `ln` (<= 1 ulp) and of the negation-free sum, the sequential sum of n non-negative
+                // terms adds (n-1)u, the division u (u = 2^-24 = 6e-8): relative error <= (n + 3)u;
+                // 1.2e-7 * (n + 8) is twice that
+                let tol = 1.2e-7 * (n as f64 + 8.0);
+                ctx.require(close(v as f64, want, tol), "log_loss_def", &class, || format!("log-loss {} want {}", v, want));
+                if valid {
+                    // one permutation applied to probabilities and labels together: only the order of the
+                    // sequential sum changes, each order is within (n-1)u of the exact sum
+                    let sp: Vec<f32> = perm.iter().map(|i| s[*i]).collect();
+                    let yp: Vec<bool> = perm.iter().map(|i| y[*i]).collect();
+                    match forms::call_log_loss(cform, &sp, &yp) {
+                        Ok(v2) => ctx.require(close(v as f64, v2 as f64, 1.2e-7 * (n as f64 + 8.0)), "perm_invariant", &class, || format!("permuted input {:?} gives {} instead of {}", perm, v2, v)),
+                        Err(e) => ctx.fail("perm_invariant", &class, format!("permuted input fails: {:?}", e)),
+                    }
+                }
                 format!("ok {}", tl(v as f64))
             }
             Err(linfa::Error::NotEnoughSamples) => "err NotEnoughSamples".into(),
             Err(e) => format!("err {:?}", e),
         }
     };
-    if s.is_empty() {
-        em.case(op, body)
+    if valid {
+        em.case_valid(op, &class, body)
     } else {
-        em.case_valid(op, "logloss", body)
+        em.case(op, body)
     }
 }
 
+fn random_scores(rng: &mut Rng, n: usize) -> (Vec<f32>, &'static str) {
+    let mode = rng.below(3);
+    let s: Vec<f32> = (0..n)
+        .map(|_| match mode {
+            0 => rng.below(9) as f32 / 8.0,
+            1 => rng.unit() as f32,
+            _ => *rng.pick(&[0.0f32, 1.0, 1e-9, 1.0 - 1e-7, 0.5]),
+        })
+        .collect();
+    (s, if mode == 1 { "generic" } else { "boundary" })
+}
+
 fn gen_logloss(em: &mut Em, rng: &mut Rng) {
-    op_logloss(em, "empty", vec![], vec![]);
+    op_logloss(em, 0, "empty", vec![], vec![], vec![]);
     let reps = if em.thorough() { 5000 } else { 400 };
-    for _ in 0..reps {
-        let n = 1 + rng.below(20);
-        let mode = rng.below(3);
-        let s: Vec<f32> = (0..n)
-            .map(|_| match mode {
-                0 => rng.below(9) as f32 / 8.0,
-                1 => rng.unit() as f32,
-                _ => *rng.pick(&[0.0f32, 1.0, 1e-9, 1.0 - 1e-7, 0.5]),
-            })
-            .collect();
+    for r in 0..reps {
+        // mostly short vectors, every eighth one long (the sum runs over hundreds of terms)
+        let n = if r % 8 == 7 { 21 + rng.below(280) } else { 1 + rng.below(20) };
+        let (s, kind) = random_scores(rng, n);
         let y: Vec<bool> = (0..n).map(|_| rng.coin()).collect();
-        op_logloss(em, if mode == 1 { "generic" } else { "boundary" }, s, y);
+        let mut perm: Vec<usize> = (0..n).collect();
+        rng.shuffle(&mut perm);
+        op_logloss(em, 0, kind, s, y, perm);
+    }
+}
+
+/// the ROC / log-loss wrappers: `Array1<Pr>`, `ArrayView1<Pr>`, `&[Pr]`, dataset against dataset
+fn gen_binary_forms(em: &mut Em, rng: &mut Rng) {
+    for form in 1..forms::BIN_FORMS {
+        // ROC: every multiset of (score, label) items of size 3 over the 5-point lattice, random vectors
+        let mut out = vec![];
+        multisets(10, 3, 0, &mut vec![], &mut out);
+        for ms in out {
+            let mut items = ms.clone();
+            rng.shuffle(&mut items);
+            let s: Vec<f32> = items.iter().map(|d| LATTICE5[d / 2]).collect();
+            let y: Vec<bool> = items.iter().map(|d| d % 2 == 1).collect();
+            let mut perm: Vec<usize> = (0..3).collect();
+            rng.shuffle(&mut perm);
+            op_roc(em, form, "exhaustive_multiset", s, y, perm);
+        }
+        let reps = if em.thorough() { 1500 } else { 120 };
+        for _ in 0..reps {
+            let big = rng.chance(1, 10);
+            let n = 2 + rng.below(if big { 300 } else { 40 });
+            let mode = rng.below(3);
+            let s: Vec<f32> = (0..n)
+                .map(|_| match mode {
+                    0 => rng.below(17) as f32 / 16.0,
+                    1 => rng.unit() as f32,
+                    _ => *rng.pick(&[0.0f32, 0.1, 0.5, 0.9, 1.0]),
+                })
+                .collect();
+            let y: Vec<bool> = (0..n).map(|_| rng.coin()).collect();
+            let mut perm: Vec<usize> = (0..n).collect();
+            rng.shuffle(&mut perm);
+            op_roc(em, form, "random", s, y, perm);
+        }
+        // outside the claim: negative scores, single class, chained scores, unequal lengths (zip truncates)
+        for r in 0..(if em.thorough() { 200 } else { 20 }) {
+            let n = 2 + rng.below(10);
+            let s: Vec<f32> = (0..n)
+                .map(|_| match rng.below(6) {
+                    0 => 0.0,
+                    1 => 5e-11,
+                    2 => 1.2e-10,
+                    3 => -0.25,
+                    _ => rng.below(5) as f32 / 4.0,
+                })
+                .collect();
+            let m = if r % 4 == 0 { n + 1 + rng.below(2) } else if r % 4 == 1 { n - 1 } else { n };
+            let y: Vec<bool> = (0..m).map(|_| rng.chance(3, 4)).collect();
+            let mut perm: Vec<usize> = (0..n.min(m)).collect();
+            rng.shuffle(&mut perm);
+            op_roc(em, form, "uncovered", s, y, perm);
+        }
+        // log-loss
+        op_logloss(em, form, "empty", vec![], vec![], vec![]);
+        let reps = if em.thorough() { 1200 } else { 100 };
+        for r in 0..reps {
+            let n = if r % 8 == 7 { 21 + rng.below(280) } else { 1 + rng.below(20) };
+            let (s, kind) = random_scores(rng, n);
+            let y: Vec<bool> = (0..n).map(|_| rng.coin()).collect();
+            let mut perm: Vec<usize> = (0..n).collect();
+            rng.shuffle(&mut perm);
+            op_logloss(em, form, kind, s, y, perm);
+        }
+    }
+    // unequal lengths: documented panic, through every form (form 0 included)
+    for form in 0..forms::BIN_FORMS {
+        for _ in 0..4 {
+            let n = 1 + rng.below(6);
+            let m = if rng.coin() { n + 1 + rng.below(2) } else { n - 1 };
+            let (s, _) = random_scores(rng, n);
+            let y: Vec<bool> = (0..m).map(|_| rng.coin()).collect();
+            op_logloss(em, form, "mismatched", s, y, vec![]);
+        }
     }
 }
 
@@ -526,69 +706,46 @@ fn gen_logloss(em: &mut Em, rng: &mut Rng) {
 
 const NAMES: [&str; 8] = ["max", "mae", "mse", "med", "mape", "r2", "ev", "msle"];
 
-/// the eight scores of one column through the public API; `None` = `Err(NotEnoughSamples)`,
-/// `-inf` (max_error of nothing) or a panic (median of nothing)
-fn reg_scores_single<F: linfa::Float>(a: &Array1<F>, b: &Array1<F>) -> Vec<Option<F>> {
-    let g = |f: &dyn Fn() -> linfa::error::Result<F>| -> Option<F> {
-        match catch_unwind(AssertUnwindSafe(|| f())) {
-            Ok(Ok(v)) => Some(v),
-            _ => None,
-        }
-    };
-    let mx = g(&|| a.max_error(b)).and_then(|v| if v == F::neg_infinity() { None } else { Some(v) });
-    vec![
-        mx,
-        g(&|| a.mean_absolute_error(b)),
-        g(&|| a.mean_squared_error(b)),
-        g(&|| a.median_absolute_error(b)),
-        g(&|| a.mean_absolute_percentage_error(b)),
-        g(&|| a.r2(b)),
-        g(&|| a.explained_variance(b)),
-        g(&|| a.mean_squared_log_error(b)),
-    ]
-}
-fn reg_scores_multi<F: linfa::Float>(a: &Array2<F>, b: &Array2<F>) -> Vec<Vec<Option<F>>> {
-    // [metric][column]
-    let p = a.ncols();
-    let g = |f: &dyn Fn() -> linfa::error::Result<Array1<F>>| -> Vec<Option<F>> {
-        match catch_unwind(AssertUnwindSafe(|| f())) {
-            Ok(Ok(v)) => v.iter().map(|x| Some(*x)).collect(),
-            _ => vec![None; p],
-        }
-    };
-    vec![
-        g(&|| a.max_error(b)),
-        g(&|| a.mean_absolute_error(b)),
-        g(&|| a.mean_squared_error(b)),
-        g(&|| a.median_absolute_error(b)),
-        g(&|| a.mean_absolute_percentage_error(b)),
-        g(&|| a.r2(b)),
-        g(&|| a.explained_variance(b)),
-        g(&|| a.mean_squared_log_error(b)),
-    ]
-}
-
-/// observed scores [metric][column] as f64 (f32 widened exactly)
-fn observe_reg(w: usize, p: usize, a: &[Vec<f64>], b: &[Vec<f64>]) -> Vec<Vec<Option<f64>>> {
+/// the eight scores through the public API, calling form `form` (see `c05_forms.rs`);
+/// `None` = `Err(NotEnoughSamples)`, `-inf` (max_error of nothing) or a panic (median of nothing).
+/// Result: observed scores [metric][column] as f64 (f32 widened exactly)
+fn observe_reg(form: usize, w: usize, p: usize, a: &[Vec<f64>], b: &[Vec<f64>]) -> Vec<Vec<Option<f64>>> {
     let n = a.len();
-    fn conv<F: linfa::Float>(n: usize, p: usize, a: &[Vec<f64>], b: &[Vec<f64>]) -> Vec<Vec<Option<f64>>> {
+    fn conv<F: linfa::Float>(form: usize, n: usize, p: usize, a: &[Vec<f64>], b: &[Vec<f64>]) -> Vec<Vec<Option<f64>>> {
         let to = |x: Option<F>| x.map(|v| v.to_f64().unwrap());
         if p == 1 {
             let aa: Array1<F> = a.iter().map(|r| F::cast(r[0])).collect();
             let bb: Array1<F> = b.iter().map(|r| F::cast(r[0])).collect();
-            reg_scores_single(&aa, &bb).into_iter().map(|x| vec![to(x)]).collect()
+            let g = |f: &dyn Fn() -> linfa::error::Result<F>| -> Option<F> {
+                match catch_unwind(AssertUnwindSafe(|| f())) {
+                    Ok(Ok(v)) => Some(v),
+                    _ => None,
+                }
+            };
+            let mut v = forms::call_reg1(form, &aa, &bb, &g);
+            if v[0] == Some(F::neg_infinity()) {
+                v[0] = None;
+            }
+            v.into_iter().map(|x| vec![to(x)]).collect()
         } else {
             let aa = Array2::from_shape_fn((n, p), |(i, j)| F::cast(a[i][j]));
             let bb = Array2::from_shape_fn((n, p), |(i, j)| F::cast(b[i][j]));
-            reg_scores_multi(&aa, &bb).into_iter().map(|v| v.into_iter().map(to).collect()).collect()
+            let g = |f: &dyn Fn() -> linfa::error::Result<Array1<F>>| -> Vec<Option<F>> {
+                match catch_unwind(AssertUnwindSafe(|| f())) {
+                    Ok(Ok(v)) if v.len() == p => v.iter().map(|x| Some(*x)).collect(),
+                    _ => vec![None; p],
+                }
+            };
+            forms::call_regm(form, &aa, &bb, &g).into_iter().map(|v| v.into_iter().map(to).collect()).collect()
         }
     }
-    if w == 64 { conv::<f64>(n, p, a, b) } else { conv::<f32>(n, p, a, b) }
+    if w == 64 { conv::<f64>(form, n, p, a, b) } else { conv::<f32>(form, n, p, a, b) }
 }
 
 fn reg_line(w: usize, exact: bool, obs: &[Vec<Option<f64>>]) -> String {
-    // mape divides before summing: its terms are not exact even on the lattice, so ndarray's
-    // unrolled sum may round differently from the left-to-right sum; always a tolerant token
+    // mape divides before summing and msle takes logarithms: their terms are not exact even on the
+    // lattice, so ndarray's unrolled sum may round differently from the left-to-right sum; always
+    // tolerant tokens
     let show = |x: &Option<f64>, inexact_term: bool| -> String {
         match x {
             None => "none".into(),
@@ -603,16 +760,13 @@ fn reg_line(w: usize, exact: bool, obs: &[Vec<Option<f64>>]) -> String {
     };
     let mut parts = vec![];
     for (k, nm) in NAMES.iter().enumerate() {
-        if exact && *nm == "msle" {
-            continue;
-        }
-        parts.push(format!("{}={}", nm, list(obs[k].iter(), |x| show(x, *nm == "mape"))));
+        parts.push(format!("{}={}", nm, list(obs[k].iter(), |x| show(x, *nm == "mape" || *nm == "msle"))));
     }
     format!("ok {}", parts.join(" "))
 }
 
 /// textbook definitions in f64 on one column; returns the wanted values (None = not covered)
-fn oracle_reg_col(ctx: &mut Ctx, w: usize, col: usize, a: &[f64], b: &[f64], obs: &[Vec<Option<f64>>]) {
+fn oracle_reg_col(ctx: &mut Ctx, prefix: &str, w: usize, col: usize, a: &[f64], b: &[f64], obs: &[Vec<Option<f64>>]) {
     let n = a.len();
     if n == 0 {
         return;
@@ -628,7 +782,7 @@ fn oracle_reg_col(ctx: &mut Ctx, w: usize, col: usize, a: &[f64], b: &[f64], obs
         };
         ctx.require(ok, clause, class, || format!("{} column {}: got {:?}, definition gives {} (a={:?} b={:?})", NAMES[k], col, get(k), want, a, b));
     };
-    let cls = format!("reg:f{}", w);
+    let cls = format!("{}:f{}", prefix, w);
     chk(ctx, 0, "max_error_def", &cls, err.iter().fold(f64::NEG_INFINITY, |m, e| m.max(e.abs())), 0.0);
     chk(ctx, 1, "mae_def", &cls, err.iter().map(|e| e.abs()).sum::<f64>() / nf, 0.0);
     chk(ctx, 2, "mse_def", &cls, err.iter().map(|e| e * e).sum::<f64>() / nf, 0.0);
@@ -652,7 +806,20 @@ fn oracle_reg_col(ctx: &mut Ctx, w: usize, col: usize, a: &[f64], b: &[f64], obs
         let mean_e = err.iter().sum::<f64>() / nf;
         let var_e = err.iter().map(|e| (e - mean_e) * (e - mean_e)).sum::<f64>();
         let zero_mean = mean_e.abs() <= 1e-12 * (1.0 + err.iter().fold(0.0f64, |m, e| m.max(e.abs())));
-        let ecls = format!("explained_variance:mean_error={}", if zero_mean { "zero" } else { "nonzero" });
+        // The open finding C05-explained-variance-mean-error is the specific slip "subtract mean(err)
+        // instead of n*mean(err)^2".  A deviation from the textbook value is attributed to it (class
+        // `...:value=sum_sq_minus_mean_error`) only if the returned value IS that formula; any other
+        // wrong value on the same inputs gets the class `...:value=other`, which is not listed.
+        let coded = 1.0 - (ssres - mean_e) / (sstot + 1e-10);
+        let is_coded = match get(6) {
+            Some(v) => close(v, coded, tol) || (v - coded).abs() <= slack(ssres - mean_e),
+            None => false,
+        };
+        let ecls = if zero_mean {
+            "explained_variance:mean_error=zero".to_string()
+        } else {
+            format!("explained_variance:mean_error=nonzero:value={}", if is_coded { "sum_sq_minus_mean_error" } else { "other" })
+        };
         chk(ctx, 6, "explained_variance_textbook", &ecls, 1.0 - var_e / sstot, slack(var_e));
     }
     if a.iter().chain(b.iter()).all(|x| 1.0 + *x > 1e-6) {
@@ -661,29 +828,35 @@ fn oracle_reg_col(ctx: &mut Ctx, w: usize, col: usize, a: &[f64], b: &[f64], obs
     }
 }
 
-fn op_reg(em: &mut Em, exact: bool, kind: &str, w: usize, p: usize, a: Vec<Vec<f64>>, b: Vec<Vec<f64>>, perm: Vec<usize>) {
-    let name = if exact { "reg" } else { "regt" };
-    let op = format!(
-        "{} w={} p={} a={} b={}",
-        name,
-        w,
-        p,
-        list2(a.iter().map(|r| r.iter()), |x| hex64(*x)),
-        list2(b.iter().map(|r| r.iter()), |x| hex64(*x))
-    );
-    em.count(&format!("{}:{}:f{}:p={}", name, kind, w, if p == 1 { "1" } else { "multi" }));
+/// `form` 0: arrays against arrays (ops `reg` / `regt`); other forms (ops `regf` / `regtf`):
+/// datasets as receiver and / or argument, views, an n x 1 matrix through the multi-target trait
+fn op_reg(em: &mut Em, form: usize, exact: bool, kind: &str, w: usize, p: usize, a: Vec<Vec<f64>>, b: Vec<Vec<f64>>, perm: Vec<usize>) {
+    let name = match (exact, form == 0) {
+        (true, true) => "reg",
+        (false, true) => "regt",
+        (true, false) => "regf",
+        (false, false) => "regtf",
+    };
+    let fname = if p == 1 { forms::REG1_FORM_NAMES[form] } else { forms::REGM_FORM_NAMES[form] };
+    let args = format!("w={} p={} a={} b={}", w, p, list2(a.iter().map(|r| r.iter()), |x| hex64(*x)), list2(b.iter().map(|r| r.iter()), |x| hex64(*x)));
+    let op = if form == 0 { format!("{} {}", name, args) } else { format!("{} form={} {}", name, form, args) };
+    em.count(&format!("{}:{}:f{}:p={}", name, kind, w, if p == 1 { "1".to_string() } else if p <= 3 { "2..3".to_string() } else { "4+".to_string() }));
+    if form != 0 {
+        em.count(&format!("{}:form={}", name, fname));
+    }
+    let prefix = if form == 0 { "reg".to_string() } else { format!("regf:{}", fname) };
     let n = a.len();
     let body = |ctx: &mut Ctx| {
-        let obs = observe_reg(w, p, &a, &b);
+        let obs = observe_reg(form, w, p, &a, &b);
         for c in 0..p {
             let ca: Vec<f64> = a.iter().map(|r| r[c]).collect();
             let cb: Vec<f64> = b.iter().map(|r| r[c]).collect();
-            oracle_reg_col(ctx, w, c, &ca, &cb, &obs);
+            oracle_reg_col(ctx, &prefix, w, c, &ca, &cb, &obs);
         }
         if n > 0 {
             let ap: Vec<Vec<f64>> = perm.iter().map(|i| a[*i].clone()).collect();
             let bp: Vec<Vec<f64>> = perm.iter().map(|i| b[*i].clone()).collect();
-            let obs2 = observe_reg(w, p, &ap, &bp);
+            let obs2 = observe_reg(form, w, p, &ap, &bp);
             let same = {
                 obs.iter().flatten().zip(obs2.iter().flatten()).all(|(x, y)| match (x, y) {
                     (Some(x), Some(y)) => close(*x, *y, if w == 64 { 1e-9 } else { 2e-4 }),
@@ -691,120 +864,169 @@ fn op_reg(em: &mut Em, exact: bool, kind: &str, w: usize, p: usize, a: Vec<Vec<f
                     _ => false,
                 })
             };
-            ctx.require(same, "perm_invariant", "reg", || format!("permuted input {:?} gives {} instead of {}", perm, reg_line(w, exact, &obs2), reg_line(w, exact, &obs)));
+            ctx.require(same, "perm_invariant", &prefix, || format!("permuted input {:?} gives {} instead of {}", perm, reg_line(w, exact, &obs2), reg_line(w, exact, &obs)));
         }
         reg_line(w, exact, &obs)
     };
     em.case(op, body)
 }
 
+/// lattice inputs: multiples of 1/4 in [-8, 8] (+16 now and then); every sum, square and
+/// mean-deviation is exact when n is a power of two, and the code/model operation orders coincide
+/// otherwise up to exact sums
+fn lattice_reg(rng: &mut Rng, n: usize, p: usize) -> (Vec<Vec<f64>>, Vec<Vec<f64>>) {
+    let mode = rng.below(4);
+    let mut a = vec![vec![0.0; p]; n];
+    let mut b = vec![vec![0.0; p]; n];
+    for c in 0..p {
+        let shift = if rng.chance(1, 4) { 16.0 } else { 0.0 };
+        for i in 0..n {
+            b[i][c] = rng.range(-16, 16) as f64 / 4.0 + shift;
+        }
+        match mode {
+            0 => {
+                // zero-sum perturbation (mean error exactly 0)
+                let mut e: Vec<f64> = (0..n).map(|_| rng.range(-8, 8) as f64 / 4.0).collect();
+                let s: f64 = e.iter().sum();
+                if n > 0 {
+                    e[0] -= s;
+                }
+                for i in 0..n {
+                    a[i][c] = b[i][c] + e[i];
+                }
+            }
+            1 => {
+                // constant offset (shift of the prediction)
+                let o = rng.range(-8, 8) as f64 / 2.0;
+                for i in 0..n {
+                    a[i][c] = b[i][c] + o + rng.range(-2, 2) as f64 / 4.0;
+                }
+            }
+            2 => {
+                for i in 0..n {
+                    a[i][c] = b[i][c];
+                }
+                if n > 0 && rng.coin() {
+                    let i = rng.below(n);
+                    a[i][c] += 1.0;
+                }
+            }
+            _ => {
+                for i in 0..n {
+                    a[i][c] = rng.range(-16, 16) as f64 / 4.0 + shift;
+                }
+            }
+        }
+        // constant truth now and then (outside the r2 claim, inside the correspondence)
+        if rng.chance(1, 20) {
+            for i in 0..n {
+                b[i][c] = 1.5;
+            }
+        }
+    }
+    (a, b)
+}
+
+/// generic inputs: log-uniform scales, offsets, positive values (so msle is defined)
+fn generic_reg(rng: &mut Rng, w: usize, n: usize, p: usize) -> (Vec<Vec<f64>>, Vec<Vec<f64>>) {
+    let scale = 10f64.powf(rng.unit() * 6.0 - 3.0);
+    let off = if rng.coin() { 0.0 } else { scale * (rng.unit() * 20.0) };
+    let positive = rng.coin();
+    let mut a = vec![vec![0.0; p]; n];
+    let mut b = vec![vec![0.0; p]; n];
+    for c in 0..p {
+        for i in 0..n {
+            let t = if positive { rng.unit() } else { rng.unit() * 2.0 - 1.0 };
+            let y = off + scale * t;
+            let x = y + scale * 0.3 * (rng.unit() - 0.4);
+            let (x, y) = if positive { (x.abs() + 1e-3 * scale, y.abs() + 1e-3 * scale) } else { (x, y) };
+            // values travel as f64 bits; for the f32 runs round first so both sides see the same input
+            a[i][c] = if w == 32 { x as f32 as f64 } else { x };
+            b[i][c] = if w == 32 { y as f32 as f64 } else { y };
+        }
+    }
+    (a, b)
+}
+
 fn gen_reg(em: &mut Em, rng: &mut Rng) {
-    // lattice stream: multiples of 1/4 in [-8, 8]; every sum, square and mean-deviation below is exact
-    // when n is a power of two, and the code/model operation orders coincide otherwise up to exact sums
     let reps = if em.thorough() { 12000 } else { 900 };
     for r in 0..reps {
         let w = if rng.chance(1, 3) { 32 } else { 64 };
-        let p = if rng.chance(1, 4) { 2 + rng.below(2) } else { 1 };
+        let wide = rng.chance(1, 4);
+        let p = if rng.chance(1, 4) { 2 + rng.below(if wide { 5 } else { 2 }) } else { 1 };
         // n <= 7: ndarray's unrolled sum is the left-to-right sum; n = 8, 16 (f64 only): means are exact,
         // so every term of every sum is exact and the order of summation is immaterial
         let n = if r < 3 { r } else if w == 64 { *rng.pick(&[1usize, 2, 2, 3, 4, 4, 5, 6, 7, 8, 8, 16]) } else { 1 + rng.below(7) };
         if n == 0 && p > 1 {
             continue;
         }
-        let mode = rng.below(4);
-        let mut a = vec![vec![0.0; p]; n];
-        let mut b = vec![vec![0.0; p]; n];
-        for c in 0..p {
-            let shift = if rng.chance(1, 4) { 16.0 } else { 0.0 };
-            for i in 0..n {
-                b[i][c] = rng.range(-16, 16) as f64 / 4.0 + shift;
-            }
-            match mode {
-                0 => {
-                    // zero-sum perturbation (mean error exactly 0)
-                    let mut e: Vec<f64> = (0..n).map(|_| rng.range(-8, 8) as f64 / 4.0).collect();
-                    let s: f64 = e.iter().sum();
-                    if n > 0 {
-                        e[0] -= s;
-                    }
-                    for i in 0..n {
-                        a[i][c] = b[i][c] + e[i];
-                    }
-                }
-                1 => {
-                    // constant offset (shift of the prediction)
-                    let o = rng.range(-8, 8) as f64 / 2.0;
-                    for i in 0..n {
-                        a[i][c] = b[i][c] + o + rng.range(-2, 2) as f64 / 4.0;
-                    }
-                }
-                2 => {
-                    for i in 0..n {
-                        a[i][c] = b[i][c];
-                    }
-                    if n > 0 && rng.coin() {
-                        let i = rng.below(n);
-                        a[i][c] += 1.0;
-                    }
-                }
-                _ => {
-                    for i in 0..n {
-                        a[i][c] = rng.range(-16, 16) as f64 / 4.0;
-                    }
-                }
-            }
-            // constant truth now and then (outside the r2 claim, inside the correspondence)
-            if rng.chance(1, 20) {
-                for i in 0..n {
-                    b[i][c] = 1.5;
-                }
-            }
-        }
+        let (a, b) = lattice_reg(rng, n, p);
         let mut perm: Vec<usize> = (0..n).collect();
         rng.shuffle(&mut perm);
-        op_reg(em, true, "lattice", w, p, a, b, perm);
+        op_reg(em, 0, true, "lattice", w, p, a, b, perm);
     }
-    // generic stream: log-uniform scales, offsets, positive values (so msle is defined)
     let reps = if em.thorough() { 6000 } else { 400 };
     for _ in 0..reps {
         let w = if rng.chance(1, 3) { 32 } else { 64 };
         let p = if rng.chance(1, 4) { 2 } else { 1 };
         let big = rng.chance(1, 10);
         let n = 2 + rng.below(if big { 200 } else { 30 });
-        let scale = 10f64.powf(rng.unit() * 6.0 - 3.0);
-        let off = if rng.coin() { 0.0 } else { scale * (rng.unit() * 20.0) };
-        let positive = rng.coin();
-        let mut a = vec![vec![0.0; p]; n];
-        let mut b = vec![vec![0.0; p]; n];
-        for c in 0..p {
-            for i in 0..n {
-                let t = if positive { rng.unit() } else { rng.unit() * 2.0 - 1.0 };
-                let y = off + scale * t;
-                let x = y + scale * 0.3 * (rng.unit() - 0.4);
-                let (x, y) = if positive { (x.abs() + 1e-3 * scale, y.abs() + 1e-3 * scale) } else { (x, y) };
-                // values travel as f64 bits; for the f32 runs round first so both sides see the same input
-                a[i][c] = if w == 32 { x as f32 as f64 } else { x };
-                b[i][c] = if w == 32 { y as f32 as f64 } else { y };
-            }
-        }
+        let (a, b) = generic_reg(rng, w, n, p);
         let mut perm: Vec<usize> = (0..n).collect();
         rng.shuffle(&mut perm);
-        op_reg(em, false, "generic", w, p, a, b, perm);
+        op_reg(em, 0, false, "generic", w, p, a, b, perm);
+    }
+}
+
+/// the regression traits through datasets (receiver and / or argument), views and an n x 1 matrix
+fn gen_reg_forms(em: &mut Em, rng: &mut Rng) {
+    let reps = if em.thorough() { 500 } else { 45 };
+    for single in [true, false] {
+        let nforms = if single { forms::REG1_FORMS } else { forms::REGM_FORMS };
+        for form in 1..nforms {
+            for r in 0..reps {
+                let w = if rng.chance(1, 3) { 32 } else { 64 };
+                let wide = rng.chance(1, 4);
+                let p = if single { 1 } else { 2 + rng.below(if wide { 5 } else { 2 }) };
+                if r % 3 != 2 {
+                    let n = if r == 0 && single { 0 } else if w == 64 { *rng.pick(&[1usize, 2, 3, 4, 5, 6, 7, 8, 16]) } else { 1 + rng.below(7) };
+                    let (a, b) = lattice_reg(rng, n, p);
+                    let mut perm: Vec<usize> = (0..n).collect();
+                    rng.shuffle(&mut perm);
+                    op_reg(em, form, true, "lattice", w, p, a, b, perm);
+                } else {
+                    let big = rng.chance(1, 10);
+                    let n = 2 + rng.below(if big { 200 } else { 30 });
+                    let (a, b) = generic_reg(rng, w, n, p);
+                    let mut perm: Vec<usize> = (0..n).collect();
+                    rng.shuffle(&mut perm);
+                    op_reg(em, form, false, "generic", w, p, a, b, perm);
+                }
+            }
+        }
     }
 }
 
 // ------------------------------------------------------------------ silhouette
 
-fn observe_sil(x: &[Vec<f64>], l: &[usize]) -> f64 {
+fn observe_sil(form: usize, w: usize, x: &[Vec<f64>], l: &[usize]) -> f64 {
     let n = x.len();
     let d = x[0].len();
-    let rec = Array2::from_shape_fn((n, d), |(i, j)| x[i][j]);
-    let ds = Dataset::new(rec, Array1::from(l.to_vec()));
-    ds.silhouette_score().expect("silhouette")
+    if w == 64 {
+        let rec = Array2::from_shape_fn((n, d), |(i, j)| x[i][j]);
+        forms::call_sil::<f64>(form, rec, l).expect("silhouette")
+    } else {
+        let rec = Array2::from_shape_fn((n, d), |(i, j)| x[i][j] as f32);
+        forms::call_sil::<f32>(form, rec, l).expect("silhouette") as f64
+    }
 }
 
-fn op_sil(em: &mut Em, kind: &str, x: Vec<Vec<f64>>, l: Vec<usize>, perm: Vec<usize>) {
-    let op = format!("sil x={} l={}", list2(x.iter().map(|r| r.iter()), |v| hex64(*v)), list(l.iter(), |v| v.to_string()));
+/// ops: `sil` (f64, `Dataset<f64, usize>`), `sil32` (f32 records), `silf form=k` (other label types,
+/// `CountedTargets`, dataset views; f64).  For `w = 32` the coordinates are exactly representable in f32.
+fn op_sil(em: &mut Em, form: usize, w: usize, kind: &str, x: Vec<Vec<f64>>, l: Vec<usize>, perm: Vec<usize>) {
+    let args = format!("x={} l={}", list2(x.iter().map(|r| r.iter()), |v| hex64(*v)), list(l.iter(), |v| v.to_string()));
+    let name = if form != 0 { "silf" } else if w == 32 { "sil32" } else { "sil" };
+    let op = if form != 0 { format!("silf form={} {}", form, args) } else { format!("{} {}", name, args) };
     let n = x.len();
     let dist = |i: usize, j: usize| -> f64 { x[i].iter().zip(x[j].iter()).map(|(a, b)| (a - b) * (a - b)).sum::<f64>().sqrt() };
     let mut labels: Vec<usize> = l.clone();
@@ -816,9 +1038,18 @@ fn op_sil(em: &mut Em, kind: &str, x: Vec<Vec<f64>>, l: Vec<usize>, perm: Vec<us
             let members: Vec<usize> = (0..n).filter(|i| l[*i] == *c).collect();
             members.len() >= 2 && members.iter().any(|i| x[*i] != x[members[0]])
         });
-    em.count(&format!("sil:{}:{}", kind, if covered { "covered" } else { "degenerate" }));
+    em.count(&format!("{}:{}:{}", name, kind, if covered { "covered" } else { "degenerate" }));
+    if form != 0 {
+        em.count(&format!("silf:form={}", forms::SIL_FORM_NAMES[form]));
+    }
+    let class = if form != 0 { format!("silf:{}", forms::SIL_FORM_NAMES[form]) } else { name.to_string() };
+    // f64: every a(x), b(x) is a sum of at most n distances, each with relative error <= (d+2)u, the sum
+    // adds (n-1)u, the quotient 2u; s = (b-a)/max(a,b) has |ds| <= 2 * that; n <= 60, d <= 6, u = 1.1e-16
+    // gives 2e-14; 1e-9 is kept from the first version.  f32: u = 6e-8 gives 2 * (60 + 8) * 6e-8 = 8e-6;
+    // tolerance 2e-5.
+    let tol = if w == 64 { 1e-9 } else { 2e-5 };
     let body = |ctx: &mut Ctx| {
-        let v = observe_sil(&x, &l);
+        let v = observe_sil(form, w, &x, &l);
         if covered {
             let mut total = 0.0;
             for i in 0..n {
@@ -835,56 +1066,112 @@ fn op_sil(em: &mut Em, kind: &str, x: Vec<Vec<f64>>, l: Vec<usize>, perm: Vec<us
                 total += (b - a) / a.max(b);
             }
             let want = total / n as f64;
-            ctx.require(close(v, want, 1e-9), "silhouette_def", "sil", || format!("silhouette {} want {}", v, want));
+            ctx.require(close(v, want, tol), "silhouette_def", &class, || format!("silhouette {} want {}", v, want));
             let xp: Vec<Vec<f64>> = perm.iter().map(|i| x[*i].clone()).collect();
             let lp: Vec<usize> = perm.iter().map(|i| l[*i]).collect();
-            let v2 = observe_sil(&xp, &lp);
-            ctx.require(close(v, v2, 1e-9), "perm_invariant", "sil", || format!("permuted input {:?} gives {} instead of {}", perm, v2, v));
+            let v2 = observe_sil(form, w, &xp, &lp);
+            ctx.require(close(v, v2, tol), "perm_invariant", &class, || format!("permuted input {:?} gives {} instead of {}", perm, v2, v));
         }
         format!("ok {}", tl(v))
     };
     if covered {
-        em.case_valid(op, "sil", body)
+        em.case_valid(op, &class, body)
     } else {
         em.case(op, body)
     }
 }
 
+/// `wide`: up to 6 dimensions and 7 clusters, half-integer or generic coordinates
+fn random_sil(rng: &mut Rng, wide: bool, w: usize) -> (Vec<Vec<f64>>, Vec<usize>, String) {
+    let d = if wide { 1 + rng.below(6) } else { 1 + rng.below(2) };
+    let k = if wide { 2 + rng.below(6) } else { 2 + rng.below(3) };
+    let n = if rng.chance(1, 10) { 1 + rng.below(4) } else { 2 * k + rng.below(8) };
+    let spread = 1 + rng.below(6) as i64;
+    let generic = wide && rng.chance(1, 3);
+    let centers: Vec<Vec<i64>> = (0..k).map(|_| (0..d).map(|_| rng.range(-6, 6)).collect()).collect();
+    let mut l: Vec<usize> = (0..n).map(|i| if i < 2 * k { i % k } else { rng.below(k) }).collect();
+    if rng.chance(1, 12) {
+        // degenerate shapes: one cluster, singleton cluster
+        if rng.coin() {
+            l.iter_mut().for_each(|v| *v = 3);
+        } else if n > 0 {
+            l[0] = 9;
+        }
+    }
+    let x: Vec<Vec<f64>> = (0..n)
+        .map(|i| {
+            (0..d)
+                .map(|j| {
+                    let c = centers[l[i] % k][j] as f64;
+                    let v = if generic { c + (rng.unit() * 2.0 - 1.0) * spread as f64 } else { c + rng.range(-spread, spread) as f64 };
+                    if w == 32 { v as f32 as f64 } else { v }
+                })
+                .collect()
+        })
+        .collect();
+    (x, l, format!("d={}{}", if d <= 2 { d.to_string() } else { "3+".to_string() }, if generic { ":generic" } else { "" }))
+}
+
 fn gen_sil(em: &mut Em, rng: &mut Rng) {
     let reps = if em.thorough() { 6000 } else { 500 };
-    for _ in 0..reps {
-        let d = 1 + rng.below(2);
-        let k = 2 + rng.below(3);
-        let n = if rng.chance(1, 10) { 1 + rng.below(4) } else { 2 * k + rng.below(8) };
-        let spread = 1 + rng.below(6) as i64;
-        let centers: Vec<Vec<i64>> = (0..k).map(|_| (0..d).map(|_| rng.range(-6, 6)).collect()).collect();
-        let mut l: Vec<usize> = (0..n).map(|i| if i < 2 * k { i % k } else { rng.below(k) }).collect();
-        if rng.chance(1, 12) {
-            // degenerate shapes: one cluster, singleton cluster
-            if rng.coin() {
-                l.iter_mut().for_each(|v| *v = 3);
-            } else if n > 0 {
-                l[0] = 9;
-            }
-        }
-        let x: Vec<Vec<f64>> = (0..n).map(|i| (0..d).map(|j| (centers[l[i] % k][j] + rng.range(-spread, spread)) as f64).collect()).collect();
-        let mut perm: Vec<usize> = (0..n).collect();
+    for r in 0..reps {
+        let (x, l, kind) = random_sil(rng, r % 4 == 3, 64);
+        let mut perm: Vec<usize> = (0..x.len()).collect();
         rng.shuffle(&mut perm);
-        op_sil(em, &format!("d={}", d), x, l, perm);
+        op_sil(em, 0, 64, &kind, x, l, perm);
+    }
+    // f32 records
+    let reps = if em.thorough() { 2500 } else { 200 };
+    for r in 0..reps {
+        let (x, l, kind) = random_sil(rng, r % 2 == 1, 32);
+        let mut perm: Vec<usize> = (0..x.len()).collect();
+        rng.shuffle(&mut perm);
+        op_sil(em, 0, 32, &kind, x, l, perm);
+    }
+    // other label types and containers
+    let reps = if em.thorough() { 600 } else { 50 };
+    for form in 1..forms::SIL_FORMS {
+        for r in 0..reps {
+            let (x, l, kind) = random_sil(rng, r % 2 == 1, 64);
+            let mut perm: Vec<usize> = (0..x.len()).collect();
+            rng.shuffle(&mut perm);
+            op_sil(em, form, 64, &kind, x, l, perm);
+        }
     }
 }
 
 // ------------------------------------------------------------------ Pearson
 
-fn op_pearson(em: &mut Em, kind: &str, x: Vec<Vec<f64>>, p: usize) {
-    let op = format!("pearson x={} p={}", list2(x.iter().map(|r| r.iter()), |v| hex64(*v)), p);
+fn observe_pearson(w: usize, x: &[Vec<f64>], p: usize) -> Vec<f64> {
     let n = x.len();
-    em.count(&format!("pearson:{}", kind));
-    let body = |ctx: &mut Ctx| {
+    if w == 64 {
         let rec = Array2::from_shape_fn((n, p), |(i, j)| x[i][j]);
-        let ds = DatasetBase::from(rec);
-        let co = ds.pearson_correlation();
-        let got: Vec<f64> = co.get_coeffs().to_vec();
+        DatasetBase::from(rec).pearson_correlation().get_coeffs().to_vec()
+    } else {
+        let rec = Array2::from_shape_fn((n, p), |(i, j)| x[i][j] as f32);
+        DatasetBase::from(rec).pearson_correlation().get_coeffs().iter().map(|v| *v as f64).collect()
+    }
+}
+
+/// ops `pearson` (f64) and `pearson32` (f32 records; values exactly representable in f32)
+fn op_pearson(em: &mut Em, w: usize, kind: &str, x: Vec<Vec<f64>>, p: usize, perm: Vec<usize>) {
+    let name = if w == 32 { "pearson32" } else { "pearson" };
+    let op = format!("{} x={} p={}", name, list2(x.iter().map(|r| r.iter()), |v| hex64(*v)), p);
+    let n = x.len();
+    em.count(&format!("{}:{}:p={}", name, kind, if p <= 4 { p.to_string() } else { "5+".to_string() }));
+    // Error bound.  With u the unit roundoff and M = max|x|, the centred columns carry an absolute error
+    // <= (n+1)u*M, the dot products / variances a relative error <= (n+2)u of sums of non-negative or
+    // Cauchy-Schwarz-bounded terms, so the absolute error of r = cov/(s_i s_j) is <= c*(n+4)*u*(1 + M/s)
+    // with M/s <= 100/0.3 on the generated data (offset 100, spread >= 1) and n <= 14:
+    // f64: 18 * 1.1e-16 * 330 * c ~ 1e-12 (tolerance 1e-9 kept).  f32, sharper: the error d of a column
+    // mean (<= n*ulp(n*M)/n: 6e-5 with offset 100, 4e-6 without) shifts the whole centred column, which
+    // enters cov and var only in second order (n*d^2 <= 5e-8); the roundings of the centred values
+    // (ulp(13)/2 = 5e-7 each) contribute sum|c_i|*5e-7 / sum c_i^2 <= 1.4e-5 when the spread is >= 1
+    // (sum c_i^2 >= 0.5): tolerance 2e-4 with offset columns, 5e-5 without.
+    let has_offset = x.iter().flatten().any(|v| v.abs() > 50.0);
+    let tol = if w == 64 { 1e-9 } else if has_offset { 2e-4 } else { 5e-5 };
+    let body = |ctx: &mut Ctx| {
+        let got = observe_pearson(w, &x, p);
         // textbook: cov / (std std), pairs (i, j), i < j, row-major
         let col = |j: usize| -> Vec<f64> { x.iter().map(|r| r[j]).collect() };
         let mut want = vec![];
@@ -898,50 +1185,135 @@ fn op_pearson(em: &mut Em, kind: &str, x: Vec<Vec<f64>>, p: usize) {
                 want.push(cov / (va.sqrt() * vb.sqrt()));
             }
         }
-        ctx.require(got.len() == want.len(), "pearson_order", "pearson", || format!("{} coefficients for {} features", got.len(), p));
+        ctx.require(got.len() == want.len(), "pearson_order", name, || format!("{} coefficients for {} features", got.len(), p));
         if got.len() == want.len() {
-            ctx.require(got.iter().zip(want.iter()).all(|(g, w)| close(*g, *w, 1e-9)), "pearson_def", "pearson", || format!("coefficients {:?} want {:?}", got, want));
+            ctx.require(got.iter().zip(want.iter()).all(|(g, w)| close(*g, *w, tol)), "pearson_def", name, || format!("coefficients {:?} want {:?}", got, want));
+            // one permutation applied to all features together (a permutation of the observations)
+            let xp: Vec<Vec<f64>> = perm.iter().map(|i| x[*i].clone()).collect();
+            let got2 = observe_pearson(w, &xp, p);
+            ctx.require(got2.len() == got.len() && got.iter().zip(got2.iter()).all(|(g, h)| close(*g, *h, tol)), "perm_invariant", name, || format!("permuted observations {:?} give {:?} instead of {:?}", perm, got2, got));
         }
         format!("ok {}", list(got.iter(), |v| tl(*v)))
     };
-    em.case_valid(op, "pearson", body)
+    em.case_valid(op, name, body)
+}
+
+fn random_pearson(rng: &mut Rng, w: usize) -> (Vec<Vec<f64>>, usize, &'static str) {
+    // up to 8 features (28 coefficients): index slips of the upper-triangle enumeration that first
+    // show with 5 or more features are inside the stream
+    let p = if rng.chance(1, 3) { 5 + rng.below(4) } else { 1 + rng.below(4) };
+    let n = if rng.chance(1, 12) { 2 } else { 3 + rng.below(12) };
+    let generic = rng.chance(1, 3);
+    let mut x = vec![vec![0.0; p]; n];
+    for j in 0..p {
+        let off = if rng.chance(1, 3) { 100.0 } else { 0.0 };
+        loop {
+            for i in 0..n {
+                let v = off + if generic { rng.unit() * 10.0 - 5.0 } else { rng.range(-8, 8) as f64 };
+                x[i][j] = if w == 32 { v as f32 as f64 } else { v };
+            }
+            // every feature non-constant (the coefficient is undefined otherwise); for generic f32 data
+            // also spread by at least 1 so the error bound above applies
+            let (lo, hi) = x.iter().fold((f64::INFINITY, f64::NEG_INFINITY), |(lo, hi), r| (lo.min(r[j]), hi.max(r[j])));
+            if hi - lo >= 1.0 {
+                break;
+            }
+        }
+        if j > 0 && rng.chance(1, 4) {
+            // exactly (anti-)correlated with the first column
+            let s = if rng.coin() { 2.0 } else { -0.5 };
+            for i in 0..n {
+                let v = s * x[i][0] + 1.0;
+                x[i][j] = if w == 32 { v as f32 as f64 } else { v };
+            }
+        }
+    }
+    (x, p, if generic { "generic" } else { "integer" })
 }
 
 fn gen_pearson(em: &mut Em, rng: &mut Rng) {
     let reps = if em.thorough() { 4000 } else { 300 };
     for _ in 0..reps {
-        let p = 1 + rng.below(4);
-        let n = 3 + rng.below(12);
-        let generic = rng.chance(1, 3);
-        let mut x = vec![vec![0.0; p]; n];
-        for j in 0..p {
-            let off = if rng.chance(1, 3) { 100.0 } else { 0.0 };
-            loop {
-                for i in 0..n {
-                    x[i][j] = off + if generic { rng.unit() * 10.0 - 5.0 } else { rng.range(-8, 8) as f64 };
-                }
-                // every feature non-constant (the coefficient is undefined otherwise)
-                if (1..n).any(|i| x[i][j] != x[0][j]) {
-                    break;
-                }
-            }
-            if j > 0 && rng.chance(1, 4) {
-                // exactly (anti-)correlated with the first column
-                let s = if rng.coin() { 2.0 } else { -0.5 };
-                for i in 0..n {
-                    x[i][j] = s * x[i][0] + 1.0;
-                }
-            }
-        }
-        op_pearson(em, if generic { "generic" } else { "integer" }, x, p);
+        let (x, p, kind) = random_pearson(rng, 64);
+        let mut perm: Vec<usize> = (0..x.len()).collect();
+        rng.shuffle(&mut perm);
+        op_pearson(em, 64, kind, x, p, perm);
     }
+    let reps = if em.thorough() { 2000 } else { 150 };
+    for _ in 0..reps {
+        let (x, p, kind) = random_pearson(rng, 32);
+        let mut perm: Vec<usize> = (0..x.len()).collect();
+        rng.shuffle(&mut perm);
+        op_pearson(em, 32, kind, x, p, perm);
+    }
+}
+
+/// Coverage floors (oracle-only case `#floors`): every stream and every calling form must have
+/// delivered at least a minimum number of cases, so a generator slip that silently switches a
+/// part of the check off (a form never drawn, no covered clustering, no tied scores) is reported.
+/// The minima are about two thirds of what the quick tier produces with any seed.
+fn floors(em: &mut Em) {
+    let mut need: Vec<(Vec<String>, u64)> = vec![];
+    let mut add = |subs: &[&str], min: u64| need.push((subs.iter().map(|s| s.to_string()).collect(), min));
+    add(&["cm:exhaustive"], 17000);
+    add(&["cm:random"], 600);
+    add(&["cm:mismatched"], 20);
+    for f in 1..forms::CM_FORMS {
+        add(&[&format!("cmf:form={}", forms::CM_FORM_NAMES[f])], 150);
+    }
+    add(&["roc:lowest_score_zero"], 1000);
+    add(&["roc:lowest_score_positive"], 300);
+    add(&["roc:tied_scores"], 1000);
+    for f in 1..forms::BIN_FORMS {
+        add(&[&format!("rocf:form={}", forms::BIN_FORM_NAMES[f])], 250);
+    }
+    add(&["logloss:"], 300);
+    for f in [0usize, 2, 3, 4] {
+        add(&[&format!("loglossf:form={}", forms::BIN_FORM_NAMES[f])], 80);
+    }
+    add(&["reg:lattice", ":f64:"], 400);
+    add(&["reg:lattice", ":f32:"], 200);
+    add(&["reg:lattice", "p=4+"], 5);
+    add(&["regt:generic"], 300);
+    for f in 1..forms::REG1_FORMS {
+        add(&[&format!("regf:form={}", forms::REG1_FORM_NAMES[f])], 20);
+        add(&[&format!("regtf:form={}", forms::REG1_FORM_NAMES[f])], 10);
+    }
+    for f in 1..forms::REGM_FORMS {
+        add(&[&format!("regf:form={}", forms::REGM_FORM_NAMES[f])], 20);
+        add(&[&format!("regtf:form={}", forms::REGM_FORM_NAMES[f])], 10);
+    }
+    add(&["sil:", ":covered"], 300);
+    add(&["sil:d=3+", ":covered"], 30);
+    add(&["sil32:", ":covered"], 120);
+    for f in 1..forms::SIL_FORMS {
+        add(&[&format!("silf:form={}", forms::SIL_FORM_NAMES[f])], 40);
+    }
+    add(&["pearson:", "p=5+"], 60);
+    add(&["pearson:"], 250);
+    add(&["pearson32:", "p=5+"], 30);
+    add(&["pearson32:"], 120);
+    let sums: Vec<(String, u64, u64)> = need
+        .iter()
+        .map(|(subs, min)| (subs.join("*"), em.dist.iter().filter(|(k, _)| subs.iter().all(|s| k.contains(s.as_str()))).map(|(_, v)| *v).sum::<u64>(), *min))
+        .collect();
+    em.case("#floors".to_string(), |ctx| {
+        for (k, got, min) in &sums {
+            ctx.require(got >= min, "coverage_floor", k, || format!("only {} cases of kind {} were generated, floor {}", got, k, min));
+        }
+        "-".to_string()
+    });
 }
 
 pub fn run(em: &mut Em, rng: &mut Rng) {
     gen_cm(em, rng);
+    gen_cm_forms(em, rng);
     gen_roc(em, rng);
     gen_logloss(em, rng);
+    gen_binary_forms(em, rng);
     gen_reg(em, rng);
+    gen_reg_forms(em, rng);
     gen_sil(em, rng);
     gen_pearson(em, rng);
+    floors(em);
 }
